@@ -15,6 +15,9 @@ thread_local! {
 
 /// Panics from Lance are caught per call; keep stderr readable and remember the message + location.
 pub fn install_quiet_panic_hook() {
+    if std::env::var("E_ROWS_LOUD").is_ok() {
+        return; // keep the default hook (message + backtrace on stderr) for debugging
+    }
     std::panic::set_hook(Box::new(|info| {
         let loc = info
             .location()
